@@ -814,7 +814,29 @@ pub fn gen_schedule(r: &mut Rng, g: &GenCfg, steps: usize, prop: &str) -> String
         } else {
             do_act(&mut w, &mut sv, &mut actions, format!("d{}", hex(&greeting))).await;
         }
-        if g.password && r.chance(1, 4) {
+        if g.password && r.chance(1, 6) {
+            // a peer whose verdict has an unusual but grammatical shape: frames or list_OK before
+            // the ACK / the OK. Any ACK is a rejection, a complete reply without one an acceptance.
+            let v: &[u8] = *r.pick(&[
+                &b"list_OK\nACK [3@1] {password} incorrect password\n"[..],
+                &b"foo: bar\nACK [3@0] {password} incorrect password\n"[..],
+                &b"foo: bar\nlist_OK\nACK [3@1] {password} incorrect password\n"[..],
+                &b"list_OK\nlist_OK\nACK [4@2] {} denied\n"[..],
+                &b"binary: 2\nAB\nACK [3@0] {password} x\n"[..],
+                &b"list_OK\nOK\n"[..],
+                &b"foo: bar\nOK\n"[..],
+                &b"ACK [3@0] {password} incorrect password\n"[..],
+            ]);
+            if r.chance(1, 2) && v.len() > 3 {
+                let p = r.range(1, v.len() - 1);
+                do_act(&mut w, &mut sv, &mut actions, format!("d{}", hex(&v[..p]))).await;
+                do_act(&mut w, &mut sv, &mut actions, format!("d{}", hex(&v[p..]))).await;
+            } else {
+                do_act(&mut w, &mut sv, &mut actions, format!("d{}", hex(v))).await;
+            }
+            // the simulated server's own verdict is discarded: the peer above answered instead
+            sv.out.clear();
+        } else if g.password && r.chance(1, 4) {
             // the peer ends the stream (or fails) instead of answering the password
             let a = match r.below(4) {
                 0 => "e".to_string(),
